@@ -18,6 +18,7 @@
 #   S3  (seeded C04-3) hll_union::get_upper_bound without check_rebuild_kxq_cur_min                -> estimate_depends_on_call_order
 #   S4  (seeded C04-4) && shortcut swaps in a LIST/SET-mode HLL_8 sketch with lg_k < lg_max_k                 -> lgk_not_min, order_dependent
 #   S6  (seeded C04-6) hll_union::update(uint32_t) zero-extends instead of sign-extending               -> input_lost / coupons_wrong
+#   S10 (seeded C04-10) mergeHll down-sampling mask declared uint16_t (needs lg_k >= 17)                    -> input_lost (family hllunionbig)
 #   (and removing either repair: F1 -> input_lost / union_emptiness, F10 -> lgk_not_min_after_reset / order_dependent)
 # Behaviour-preserving changes confirmed NOT reported:
 #   H1  eager instead of deferred rebuild (check_rebuild_kxq_cur_min at the end of mergeHll)                              [DESIGN s9]
@@ -47,7 +48,8 @@ RULE = ('operation scripts over hll_sketch registers and hll_union registers: in
 TRUSTED = ['the hll_sketch model coq/HllDefs.v for the INPUT sketches (validated against the implementation by C03 and again here: every input is observed)',
            'MurmurHash3 model coq/Murmur3.v for the real-item updates (exercised against the implementation by this check)',
            'hipAccum, kxq and the estimators are floating point: not modelled; kxq after a rebuild is carried exactly in the model and never observed']
-ASSUMPTIONS = ['an input whose is_empty() is true (incl. an empty start_full_size sketch, which is in HLL mode) is skipped by update() and does not '
+ASSUMPTIONS = ['lg_k 17..21 (family hllunionbig) is run on the implementation only, against a control sketch fed every item; the model is not run there',
+               'an input whose is_empty() is true (incl. an empty start_full_size sketch, which is in HLL mode) is skipped by update() and does not '
                'lower lg_k: "every HLL-mode input" is read as every NON-EMPTY HLL-mode input (an empty input carries no item)',
                'reset() starts a new history: lg_k and content of the result are functions of the inputs offered since the last reset',
                'coupons handed to the raw entry are valid 32-bit coupons (value field 1..63); deserialised inputs are outside C04',
@@ -515,7 +517,83 @@ def oracle(case, irecs, mrecs):
                 break
     return fails
 
-FAMILIES = [dict(name='hllunion', harness='drv_hllunion.cpp', extract='Extract_hllunion.v', model='model_hllunion', gen=gen, oracle=oracle)]
+# ---------------------------------------------------------------------------
+# big configurations (lg_k 17..21): implementation only — the list-based model cannot run 2^17 registers quickly.
+# The statement itself is the oracle: get_result(HLL_8) of the union must have the registers of a CONTROL hll_sketch of the
+# expected lg_k that was fed every item directly (compared inside the harness, op 21), the lg_k rule, and two unions fed the
+# same inputs in different orders must agree (op 22).
+# ---------------------------------------------------------------------------
+BIG_N = {17: 30000, 18: 40000, 19: 70000, 20: 130000, 21: 250000}     # enough distinct items for HLL mode at that lg_k
+
+def gen_big(rng, tier):
+    plans = [   # (lg_max_k, [(lg_k, type), ...] all HLL mode)
+        (17, [(18, 2), (19, 1), (21, 0)]),                 # first input folds 18 -> 17 (copy_or_downsample), then masked merges into lg_k 17
+        (18, [(20, 0), (19, 2), (18, 1)]),
+        (20, [(21, 1), (20, 2), (21, 0)]),                 # equal-k loop at 2^20 and masked merges 21 -> 20
+        (21, [(21, 2), (18, 0), (20, 1)]),                 # the HLL gadget (21) is down-sampled to 18, then a 20 is folded into it
+        (20, [(19, 1), (17, 2), (21, 0)]),                 # gadget 19 -> 17
+    ]
+    if tier != 'quick':
+        plans += [(19, [(21, 2), (20, 1), (19, 0)]), (17, [(17, 0), (20, 2)]), (21, [(20, 0), (19, 1), (18, 2), (17, 0)])]
+    cases = []
+    for ci, (lgmax, ins) in enumerate(plans):
+        expect = min([lgmax] + [lg for lg, _ in ins])
+        ops = []
+        ops.append([1, 90, expect, 2, 0])                  # the control
+        batches = []
+        for r, (lg, ty) in enumerate(ins):
+            start = rng.randrange(-2**63, 2**63); n = BIG_N[lg]; stride = rng.choice([1, 3, 2**33 + 1])
+            ops += [[1, r, lg, ty, 0], [4, r, start, n, stride], [4, 90, start, n, stride]]
+            batches.append((start, n, stride))
+        rawb = (rng.randrange(-2**63, 2**63), 5000, 7)
+        ops.append([4, 90] + list(rawb))
+        order2 = list(range(len(ins))); order2.reverse()
+        if ci % 2:
+            order2 = order2[1:] + order2[:1]
+        ops += [[10, 0, lgmax], [10, 1, lgmax]]
+        for j, r in enumerate(range(len(ins))):
+            ops.append([11, 0, r, j % 2])
+            if j == 0:
+                ops += [[13, 0] + list(rawb), [15, 0, 1]]
+        for j, r in enumerate(order2):
+            if j == len(order2) - 1:
+                ops.append([13, 1] + list(rawb))
+            ops.append([11, 1, r, (j + 1) % 2])
+        ops += [[21, 0, 90], [21, 1, 90], [22, 0, 1], [17, 0], [17, 1]]
+        cases.append(dict(id='big%d' % ci, ops=ops, tags=['big', 'downsample'], expect_lgk=expect))
+    return cases
+
+def oracle_big(case, irecs, mrecs):
+    fails = []
+    exp = case.get('expect_lgk')
+    for i, op in enumerate(case['ops']):
+        if i >= len(irecs):
+            break
+        R = irecs[i]['R']
+        if op[0] in (1, 4, 10, 11, 13, 15) and R != [1]:
+            fails.append(dict(sig='big_setup_refused', what='operation %r was refused' % (op[:3],), op_index=i))
+        if op[0] == 21:
+            if len(R) < 11:
+                fails.append(dict(sig='big_compare_refused', what='get_result(HLL_8) or the control is not an HLL-mode HLL_8 sketch', op_index=i)); continue
+            lg, lgc, below, above, slot, v, vc, e, ec, mode, ulg = R[:11]
+            if lg != exp or ulg != exp:
+                fails.append(dict(sig='lgk_not_min', what='result lg_k = %d (union %d), min(lg_max_k, lg_k of the HLL-mode inputs) = %s' % (lg, ulg, exp), op_index=i))
+            elif below:
+                fails.append(dict(sig='input_lost', what='get_result(HLL_8) at lg_k %d: %d registers below (%d above) the control sketch fed every item (slot %d holds %d, control %d)'
+                                  % (lg, below, above, slot, v, vc), op_index=i))
+            elif above:
+                fails.append(dict(sig='register_excess', what='get_result(HLL_8) at lg_k %d: %d registers above the control sketch (slot %d holds %d, control %d)'
+                                  % (lg, above, slot, v, vc), op_index=i))
+            if e != ec:
+                fails.append(dict(sig='result_emptiness', what='result is_empty() = %d, control %d' % (e, ec), op_index=i))
+        if op[0] == 22 and len(R) >= 5 and (R[0] != R[1] or R[2] or R[3]):
+            fails.append(dict(sig='order_dependent', what='two unions fed the same inputs in different orders: lg_k %d vs %d, %d registers differ' % (R[0], R[1], R[2] + R[3]), op_index=i))
+        if op[0] == 17 and len(R) >= 2 and exp is not None and (R[0] != exp or R[1] != 0):
+            fails.append(dict(sig='lgk_not_min' if R[0] != exp else 'union_emptiness', what='union accessors: lg_k %d (expected %s), is_empty %d' % (R[0], exp, R[1]), op_index=i))
+    return fails
+
+FAMILIES = [dict(name='hllunion', harness='drv_hllunion.cpp', extract='Extract_hllunion.v', model='model_hllunion', gen=gen, oracle=oracle),
+            dict(name='hllunionbig', harness='drv_hllunion.cpp', extract=None, model=None, gen=gen_big, oracle=oracle_big)]
 
 MANIFEST = dict(
     level_text=('Theorems (coq/Properties_C04.v, Properties_C04_result.v; axiom-free) about the executable model of the REPAIRED hll_union, for ALL histories '
@@ -536,7 +614,7 @@ MANIFEST = dict(
     level_note=('Proved for the model, not for the C++: the model is hand-written and validated only by the correspondence runs (lg_k 4..10 quick / ..12 thorough, <= 5 inputs). '
                 'Needs fixes/04_union_downsample_rebuild.patch and fixes/04_union_reset_lgk.patch in /repo; the unrepaired tree is reported as VIOLATION. '
                 'Reading of the statement: empty inputs (incl. an empty start_full_size sketch, which is in HLL mode) are skipped by update() and do not lower lg_k; reset() '
-                'starts a new history. Implementation-only predicates (no model value): each of the 8 estimator entry points of hll_union returns the same bits when called first and when called after all the '
+                'starts a new history. Family hllunionbig (lg_max_k 17..21, inputs lg_k 17..21 of all three types, gadget down-sampling at lg_k >= 17, two presentation orders) runs on the implementation only: get_result(HLL_8) must equal a control sketch of the expected lg_k fed every item. Implementation-only predicates (no model value): each of the 8 estimator entry points of hll_union returns the same bits when called first and when called after all the '
                 'others on fresh copies of the union (op 19, after every update), and lb <= est <= ub. Not modelled / not claimed: hipAccum, kxq and all estimates and bounds (floating point; kxq after a rebuild is carried exactly in the '
                 'model but never observed; estimates are only requested, to trigger the deferred rebuild); deserialised inputs; allocator behaviour. Input sketches of type '
                 'HLL_4/HLL_6 rely on the C03 proofs (HllSketchProofs.v) for the admissibility hypothesis. Trusted: Coq kernel, extraction, OCaml, g++/ASan, the '
